@@ -36,7 +36,8 @@ from typing import Any
 
 VERIF_DIR = os.path.dirname(os.path.dirname(os.path.abspath(__file__)))
 REPLAY_DIR = os.path.join(VERIF_DIR, "replays")
-EVIDENCE_DIR = os.path.join(VERIF_DIR, "evidence")
+EVIDENCE_DIR = os.environ.get("VERIF_EVIDENCE_DIR") or os.path.join(VERIF_DIR, "evidence")
+REPLAY_DIR = os.environ.get("VERIF_REPLAY_DIR") or REPLAY_DIR
 KNOWN_FINDINGS = os.path.join(VERIF_DIR, "known_findings.json")
 PYTHON = sys.executable
 
